@@ -67,7 +67,13 @@ open CoCo
 /-- `e` is `label + k` or `label - k` (one operand a number), whose value in the layout `as` still fits 16
 bits after moving by `D` (the value itself is `.numeric z (some 4) .extended false`: `label + k` is rejected
 above `$FFFF`, `label - k` is computed modulo `$10000`; without the bound `label - k` moves by `D` modulo
-`$10000`, see `fixOne_reloc_expr_minus_mod`) -/
+`$10000`, see `fixOne_reloc_expr_minus_mod`).
+Since repair batch B2 the number is SIGNED: the other operand `.numeric k hh mm nn` contributes `signedK k nn`, i.e.
+`-k` when it was written or defined (EQU) with a minus sign, so `label + N` with `N EQU -2` is `label - 2`.  The
+bound then also says that `label + N` is not NEGATIVE in the layout `as` (`calculate_address_offset` does not reduce
+`+` modulo `$10000`; a negative value is stored in two's complement and moves by `D` modulo `$10000`, see the class
+`MovedMod` of Lemmas/RelocMod.lean).  In arithmetic terms: `numExpr_plus_iff`, `numExpr_minus_iff`
+(Lemmas/RelocSigned.lean). -/
 def NumExpr (D : Nat) (as : List Stmt) (e : Value) : Prop :=
   ∃ l r op m k hh mm nn, e = .expr l r op m true ∧ (if l.isAddress then r else l) = .numeric k hh mm nn ∧
     (op = '+' ∨ op = '-') ∧
